@@ -351,7 +351,8 @@ Definition index_guard (vi : value) (n : nat) : option (option Z) :=      (* Non
               else match py_int i with Some z => Some (Some z) | None => None end
   end.
 
-Definition compare_fuel (h : heap) : nat := S (S (length h)).
+(* a terminating comparison never repeats a pair of cells on its recursion stack *)
+Definition compare_fuel (h : heap) : nat := S (S (length h * length h)).
 
 Fixpoint index_of (h : heap) (xs : list value) (v : value) (pos : Z) : option (option Z) :=
   match xs with
@@ -707,9 +708,9 @@ Definition modelled_functions : list str :=
 Definition wrapper (r : libres) : option value :=
   match r with LOk v => Some v | LArgsErr ret => Some ret | LRaise => Some VNull | _ => None end.
 
-(* one script statement `r_k = f(args)` or `r_k = v_n`; the result is appended to the variable list *)
+(* one script statement `r_k = f(args)`, `r_k = v_n` or `r_k = <literal>`; the result is appended to the variable list *)
 Inductive arg := AVar (n : nat) | ALit (v : value).
-Inductive op := OCall (f : str) (args : list arg) | OAlias (n : nat).
+Inductive op := OCall (f : str) (args : list arg) | OAlias (n : nat) | OLit (v : value).
 Definition env := list value.
 Definition eval_arg (e : env) (a : arg) : option value :=
   match a with AVar n => nth_error e n | ALit v => Some v end.
@@ -724,6 +725,7 @@ Definition run_op (st : option (env * heap)) (o : op) : option (env * heap) :=
   | Some (e, h) =>
     match o with
     | OAlias n => match nth_error e n with Some v => Some (e ++ [v], h) | None => None end
+    | OLit v => Some (e ++ [v], h)
     | OCall f l =>
       match eval_args e l with
       | None => None
